@@ -46,7 +46,7 @@ def make_tasks(mod, plan, verif_seed):
         for a in range(0, n, c):
             chunks.append({
                 'module': mod.__name__, 'kind': 'runs', 'config': cfg, 'indices': list(range(a, min(n, a + c))),
-                'verif_seed': verif_seed, 'hang_s': plan.get('hang_s', 90),
+                'verif_seed': verif_seed, 'hang_s': plan.get('hang_s', 3600),
             })
         per.append(chunks)
     out = []
@@ -104,6 +104,10 @@ def check(prop, tier, verif_seed, budget_override=None):
     known_lines = []
     unstable = []
 
+    discarded = sum(v for k, v in agg.counters.items() if k.startswith('discarded:'))
+    if discarded > max(5, (agg.runs + discarded) // 100):
+        agg.harness_errors.append({'trace': f'{discarded} of {agg.runs + discarded} runs were discarded (slow or stuck in C '
+                                            'code): the workload generator needs attention'})
     if agg.harness_errors:
         for hrr in agg.harness_errors[:3]:
             print('HARNESS-ERROR ' + prop + '\n' + hrr.get('trace', '')[-3000:], flush=True)
